@@ -14,6 +14,7 @@ CONSTANTS
   FixAwait = TRUE
   FixPublish = FALSE
   FixInvMax = FALSE
+  AnyTakesAwaiters = FALSE
   SeqInv = TRUE
   MaxOps = 0
 VIEW View
